@@ -43,12 +43,13 @@ var permitSpec = core.ResourceSpec{
 func c16(c *Ctx) {
 	p, r := c.P, c.R
 	r.Technique = "typestate (path search over go/ssa with defer/closure/flag/channel-handoff modelling) for every permit from acquisition to every exit, with per-function ownership summaries"
-	r.Explanation = "Decides that every transfer slot (Permit) obtained from the uTP controller is released or handed off on every control-flow exit: (R1) acquisition sites are the call sites of the functions wrapping semaphore.TryAcquire; (R2) from each acquisition, and in every function that takes ownership of a permit (parameter, captured variable, queue element), every path to every exit passes a Release, a deferred Release (including the flag-guarded deferred closure, evaluated with the flag's constant-propagated value per exit), a hand-off to a function/goroutine that itself discharges it, or a successful channel send of the carrier (the non-blocking select's default edge does not count); receivers of that channel are then obligated; (R3) the release action runs only under a successful compare-and-swap, semaphore.Release is called only from the actions built next to the matching TryAcquire with the same weight; (R4) the no-op permit is constructed only by the acquisition wrappers and the operator RPC entry points. Not decided: peak concurrency as a number; behaviour of uTP timeouts; slots held by requests still queued at shutdown (observation)."
-	r.Assumptions = []string{"golang.org/x/sync/semaphore is correct", "goroutines started with a permit run to one of their exits (contexts with timeouts bound the uTP calls)", "panics are not exits"}
+	r.Explanation = "Decides that every transfer slot (Permit) obtained from the uTP controller is released or handed off on every control-flow exit: (R1) acquisition sites are the call sites of the functions wrapping semaphore.TryAcquire; (R2) from each acquisition, and in every function that takes ownership of a permit (parameter, captured variable, queue element), every path to every exit passes a Release, a deferred Release (including the flag-guarded deferred closure, evaluated with the flag's constant-propagated value per exit), a hand-off to a function/goroutine that itself discharges it, or a successful channel send of the carrier (the non-blocking select's default edge does not count); receivers of that channel are then obligated; (R3) the release action runs only under a successful compare-and-swap, semaphore.Release is called only from the actions built next to the matching TryAcquire with the same weight; (R4) the no-op permit is constructed only by the acquisition wrappers and the operator RPC entry points; (R5) every uTP call that waits for the peer (accept, dial, read-to-EOF, write) is given a context made by context.WithTimeout/WithDeadline, so a holder reaches its release when the peer stays silent. Not decided: peak concurrency as a number; behaviour of uTP timeouts; slots held by requests still queued at shutdown (observation)."
+	r.Assumptions = []string{"golang.org/x/sync/semaphore is correct", "goroutines started with a permit run to one of their exits once their uTP waits time out (R5 checks that every wait has a deadline)", "panics are not exits"}
 	r.Floor("R1.acquire-site", 2)
 	r.Floor("R2.discharge", 4)
 	r.Floor("R3.release-once", 3)
 	r.Floor("R4.no-permit", 3)
+	r.Floor("R5.bounded-wait", 6)
 
 	// ---- R1: acquisition wrappers and their call sites
 	var wrappers []*ssa.Function
@@ -413,6 +414,54 @@ func c16(c *Ctx) {
 		}
 	}
 
+	// ---- R5: a holder reaches its release: every uTP call that waits for the peer (accept, dial,
+	// read to EOF, write) is given a context with a deadline. utp-go's accept has no timeout of
+	// its own; with the protocol's long-lived context a peer that never connects keeps the
+	// goroutine - and the slot its deferred Release would give back - for as long as the node runs.
+	{
+		waits := []string{"(*UtpTransportService).AcceptWithCid", "(*UtpTransportService).DialWithCid", "utp-go.(*UtpStream).ReadToEOF", "utp-go.(*UtpStream).Write"}
+		n := 0
+		for _, fn := range p.ModuleFuncs() {
+			if fn.Signature.Recv() != nil && core.TypeName(fn.Signature.Recv().Type()) == "UtpTransportService" {
+				continue // the wrappers pass their caller's context on
+			}
+			perFn := 0
+			core.Calls(fn, func(ci ssa.CallInstruction) {
+				id := core.CalleeID(ci)
+				isWait := false
+				for _, w := range waits {
+					if strings.HasSuffix(id, w) {
+						isWait = true
+					}
+				}
+				if !isWait || len(ci.Common().Args) < 2 {
+					return
+				}
+				n++
+				perFn++
+				ctx := ci.Common().Args[1]
+				bounded := map[ssa.Value]bool{}
+				for _, f2 := range append([]*ssa.Function{fn}, parentsOf(fn)...) {
+					core.Calls(f2, func(c2 ssa.CallInstruction) {
+						if id2 := core.CalleeID(c2); id2 == "context.WithTimeout" || id2 == "context.WithDeadline" {
+							if call, ok := c2.(*ssa.Call); ok {
+								for _, rf := range *call.Referrers() {
+									if ex, ok := rf.(*ssa.Extract); ok && ex.Index == 0 {
+										bounded[ex] = true
+									}
+								}
+							}
+						}
+					})
+				}
+				ok := core.FlowsFrom(ctx, bounded) && !flowsFromUnbounded(ctx, bounded)
+				short := id[strings.LastIndex(id, ".")+1:]
+				r.Check(ok, "R5.bounded-wait", fmt.Sprintf("%s %s #%d", core.FuncName(fn), short, perFn), p.Pos(ci.Pos()), "waits for the peer under a context with a deadline", "this wait for the peer has no deadline of its own (the context is not one made by context.WithTimeout/WithDeadline): a peer that stays silent keeps the goroutine, and the transfer slot it holds, until the node stops")
+			})
+		}
+		r.Count("utp_waits", n)
+	}
+
 	// ---- R4: who may construct the no-op permit
 	for _, fn := range p.ModuleFuncs() {
 		for _, b := range fn.Blocks {
@@ -459,4 +508,55 @@ func containsFn(fs []*ssa.Function, f *ssa.Function) bool {
 		}
 	}
 	return false
+}
+
+func parentsOf(fn *ssa.Function) []*ssa.Function {
+	var out []*ssa.Function
+	for f := fn.Parent(); f != nil; f = f.Parent() {
+		out = append(out, f)
+	}
+	return out
+}
+
+// flowsFromUnbounded: some value that can reach v (through phis / cells) is a context that is not
+// one of the bounded ones: a parameter, a field, context.Background().
+func flowsFromUnbounded(v ssa.Value, bounded map[ssa.Value]bool) bool {
+	seen := map[ssa.Value]bool{}
+	var rec func(v ssa.Value) bool
+	rec = func(v ssa.Value) bool {
+		if v == nil || seen[v] || bounded[v] {
+			return false
+		}
+		seen[v] = true
+		switch x := v.(type) {
+		case *ssa.Phi:
+			for _, e := range x.Edges {
+				if rec(e) {
+					return true
+				}
+			}
+			return false
+		case *ssa.UnOp:
+			if a, ok := x.X.(*ssa.Alloc); ok {
+				for _, rf := range *a.Referrers() {
+					if st, ok := rf.(*ssa.Store); ok && st.Addr == ssa.Value(a) && rec(st.Val) {
+						return true
+					}
+				}
+				return false
+			}
+			if _, ok := x.X.(*ssa.FreeVar); ok {
+				return false // resolved by FlowsFrom's same-block rule or rejected there
+			}
+			return true
+		case *ssa.Const:
+			return false
+		case *ssa.ChangeInterface:
+			return rec(x.X)
+		case *ssa.MakeInterface:
+			return rec(x.X)
+		}
+		return true
+	}
+	return rec(v)
 }
